@@ -71,7 +71,7 @@ func (m *Machine) markerInvoke(recv *IfaceV, method *types.Func, args []Value, s
 				return m.newError(smt.StrC("context canceled"), nil)
 			}
 			if ctx.HasDL {
-				if m.choose(2) == 1 {
+				if m.chooseAt(2, site) == 1 {
 					return m.newError(smt.StrC("context deadline exceeded"), nil)
 				}
 			}
@@ -561,6 +561,48 @@ func init() {
 		m.ghost["json.noarbitrary"] = !args[0].(*smt.Term).IsTrue()
 		return nil
 	}
+	// AssertNoFlow(label, value, secrets...): two-run non-interference.  The value (and the path
+	// condition) must be the same in a second run that differs only in the named secret symbols, given
+	// equal declassified images (public key derivation, hashes).
+	I["zzverif.AssertNoFlow"] = func(m *Machine, fn *ssa.Function, args []Value) Value {
+		label := constStr(args[0], "label")
+		var ts []*smt.Term
+		m.flatten(args[1], 4, &ts, map[*Cell]bool{})
+		repl := map[string]*smt.Term{}
+		for _, sv := range variadic(args[2]) {
+			name := constStr(sv, "secret name")
+			for _, full := range m.draws {
+				base := full
+				if i := strings.Index(full, "#"); i >= 0 {
+					base = full[:i]
+				}
+				if base == name {
+					if v := smt.LookupVar(m.Prefix + full); v != nil {
+						repl[v.Name] = smt.Var(v.Name+"'", v.Sort)
+					}
+				}
+			}
+		}
+		declass := map[string]bool{"pubkey": true, "sercompressed": true, "sha256": true}
+		var hyp []*smt.Term
+		for _, c := range m.pc {
+			hyp = append(hyp, smt.Subst(c, repl))
+		}
+		all := append(append([]*smt.Term(nil), ts...), m.pc...)
+		for _, app := range smt.UFApps(declass, all...) {
+			if p := smt.Subst(app, repl); p != app {
+				hyp = append(hyp, smt.Eq(app, p))
+			}
+		}
+		var same []*smt.Term
+		for _, t := range ts {
+			same = append(same, smt.Eq(t, smt.Subst(t, repl)))
+		}
+		cond := smt.Implies(smt.And(hyp...), smt.And(same...))
+		m.asserts = append(m.asserts, &AssertRec{Label: label, Cond: cond, PC: append([]*smt.Term(nil), m.pc...), Draws: append([]string(nil), m.draws...)})
+		m.htrace = append(m.htrace, "assert "+label)
+		return nil
+	}
 	I["zzverif.Thorough"] = func(m *Machine, fn *ssa.Function, args []Value) Value { return smt.BoolC(m.Thorough) }
 	I["zzverif.Symbolic"] = func(m *Machine, fn *ssa.Function, args []Value) Value { return smt.True }
 	I["zzverif.Fail"] = func(m *Machine, fn *ssa.Function, args []Value) Value {
@@ -581,6 +623,9 @@ func init() {
 		v := smt.Var(m.Prefix+name, smt.Bool)
 		m.pc = append(m.pc, smt.Eq(v, smt.BoolC(k == 1)))
 		return smt.BoolC(k == 1)
+	}
+	I["zzverif.LockOrderCycle"] = func(m *Machine, fn *ssa.Function, args []Value) Value {
+		return smt.BoolC(m.LockOrderCycle())
 	}
 	I["zzverif.LocksHeld"] = func(m *Machine, fn *ssa.Function, args []Value) Value {
 		return smt.BVC(64, uint64(len(m.heldOrder)))
@@ -832,7 +877,11 @@ func init() {
 			if !full {
 				panic(unsupported("rand.Read into partial slice"))
 			}
-			m.writeBack(s.Arr, &OpaqueBytes{T: m.freshBytes("rand", n), N: n})
+			caller := "rand"
+			if len(m.stack) > 0 {
+				caller = "rand." + m.stack[len(m.stack)-1]
+			}
+			m.writeBack(s.Arr, &OpaqueBytes{T: m.freshBytes(caller, n), N: n})
 			return TupleV{smt.BVC(64, uint64(n)), &IfaceV{}}
 		}
 		return TupleV{smt.BVC(64, 0), &IfaceV{}}
